@@ -340,6 +340,13 @@ def _make_scenario(sc, exact_time=False):
                 r = q['r']
                 if q['delay']:
                     time.sleep(q['delay'] * U)
+                if gates is not None:
+                    # steered run: a request enters when the behaviour lets it (its first step becomes current), requests the
+                    # behaviour never starts enter when the behaviour is exhausted
+                    spins = 0
+                    while not (gates.get(f's{r}') or gates.get('*')) and spins < 20000:
+                        detsched.checkpoint('gate')
+                        spins += 1
                 detsched.emit('Start', r=r)
                 t0 = time.perf_counter()
                 out, res = outcome(r, lambda: server.call(r, timeout=q['timeout'] * U, backpressure=q['kind'] == 'bp'))
@@ -494,6 +501,12 @@ def behaviour_to_item(beh, R, cap):
             kind, ev = L2_MAP[name]
             script.append({'role': f'c{r}' if kind == 'c' else kind, 'ev': ev, 'act': act})
         prev = st
+    started = set()
+    for stp in script:          # the first step of every caller opens that request's start gate
+        if stp['role'].startswith('c') and stp['role'] not in started:
+            started.add(stp['role'])
+            if stp.get('open') is None:
+                stp['open'] = 's' + stp['role'][1:]
     reqs = [{'r': r, 'kind': kinds[r - 1], 'dur': 0, 'fail': False,
              'timeout': 5000 if kinds[r - 1] == 'short' else 100000, 'delay': 0} for r in range(1, R + 1)]
     sc = {'cap': cap, 'workers': R, 'flavour': 'sync', 'reqs': reqs, 'stream': None}
